@@ -267,4 +267,76 @@ def negRiem (geig : α × α → List α) (search : (α × α → α) → α × 
 
 end riem
 
+/-! ## 4. Reuse sessions (round 4): the same two stacks handed to several successive `compare()` calls
+
+A tiny heap: cell `i` of a `Store` holds one 2-D array (a stack = list of rows).  A call of
+`compare(rdm1, rdm2, method)` on the cells `a`, `b`
+
+  * parses both arguments (`_parse_input_rdms`): either a *fresh copy* is allocated (boolean-mask
+    indexing `v[nan_idx]`) or, if the parser hands the caller's array on, the *same cell* is used;
+  * pre-processes the parsed stacks (`pre` = row centring for `corr` / `corr_cov`, identity for
+    the others — ranks and kernels are built in fresh arrays): either rebinding the name to a
+    new array (`v = v - mean`) or writing in place (`v -= mean`);
+  * evaluates the measure on every pair of rows.
+
+Whether the parser aliases and whether a method writes in place are read from the *source text*
+(`Rsa.Gen.C03.parseAlias`, `Rsa.Gen.C03.inplaceWrites`). -/
+
+section session
+variable {β γ : Type}
+
+abbrev Store (β : Type) := List (List β)
+
+/-- one call of `compare`: aliasing behaviour, pre-processing of a row, measure of two rows -/
+structure Call (β γ : Type) where
+  alias : Bool
+  inplace : Bool
+  pre : β → β
+  f : β → β → γ
+
+/-- `_parse_input_rdms` for one argument: the cell the parsed stack lives in -/
+def parseCell (alias : Bool) (st : Store β) (a : Nat) : Store β × Nat :=
+  if alias then (st, a) else (st ++ [st.getD a []], st.length)
+
+/-- the pre-processing statement: in place, or rebinding the name to a new array -/
+def preCell (inplace : Bool) (pre : β → β) (st : Store β) (v : Nat) : Store β × Nat :=
+  if inplace then (st.set v ((st.getD v []).map pre), v)
+  else (st ++ [(st.getD v []).map pre], st.length)
+
+/-- one `compare()` call on the cells `a`, `b`: the store afterwards and the result matrix -/
+def callStep (c : Call β γ) (st : Store β) (a b : Nat) : Store β × List (List γ) :=
+  let p1 := parseCell c.alias st a
+  let p2 := parseCell c.alias p1.1 b
+  let q1 := preCell c.inplace c.pre p2.1 p1.2
+  let q2 := preCell c.inplace c.pre q1.1 p2.2
+  (q2.1, compareAll c.f (q2.1.getD q1.2 []) (q2.1.getD q2.2 []))
+
+/-- a session: successive calls on the same two cells -/
+def sessionRun : List (Call β γ) → Store β → Nat → Nat → Store β × List (List (List γ))
+  | [], st, _, _ => (st, [])
+  | c :: cs, st, a, b =>
+    let r := callStep c st a b
+    let rest := sessionRun cs r.1 a b
+    (rest.1, r.2 :: rest.2)
+
+/-- what the property demands of a session: every call is judged on the *original* stacks -/
+def sessionSpec (cs : List (Call β γ)) (x y : List β) : List (List (List γ)) :=
+  cs.map (fun c => compareAll c.f (x.map c.pre) (y.map c.pre))
+
+/-- a call cannot touch the caller's arrays if the parser copies or nothing is written in place -/
+def Call.safe (c : Call β γ) : Bool := !c.alias || !c.inplace
+
+/-- position of a method in the list the `inplace_writes` leaf is indexed by -/
+def methodCode (m : String) : Nat :=
+  (["cosine", "corr", "spearman", "kendall", "tau-b", "tau-a", "rho-a", "corr_cov", "cosine_cov",
+    "bures", "bures_metric", "neg_riem_dist"].idxOf m)
+
+/-- the call `compare(.., method)` as coded: aliasing and in-place flags from the source text -/
+def codedCall (m : String) (nRdm : Nat) (pre : β → β) (f : β → β → γ) : Call β γ :=
+  { alias := decide (0 < Rsa.Gen.C03.parseAlias nRdm),
+    inplace := decide (0 < Rsa.Gen.C03.inplaceWrites (methodCode m)),
+    pre := pre, f := f }
+
+end session
+
 end Rsa.Compare
